@@ -443,7 +443,14 @@ func (env *SpecEnv) evalIndex(x *SIndex) Val {
 		return env.thawSort(Select(b.T, i))
 	case SliceV:
 		i := env.evalInt(x.I)
-		return env.thawElem(Select(in.regionContent(env.st, b.Reg, env.f), Add(b.Off, i)), b.Reg.Typ)
+		et := b.Reg.Typ
+		if et != nil && b.Reg.Kind != CRegion {
+			// an array variable's cell doubling as the region of a slice over it
+			if at, ok := et.Underlying().(*types.Array); ok {
+				et = at.Elem()
+			}
+		}
+		return env.thawElem(Select(in.regionContent(env.st, b.Reg, env.f), Add(b.Off, i)), et)
 	case Sc:
 		if b.T.Sort == SStr {
 			return Sc{Select(App("sarr", ArrSort(SInt), b.T), env.evalInt(x.I))}
